@@ -57,8 +57,11 @@ alone_decode(void *coder_ptr, const lzma_allocator *allocator,
 {
 	lzma_alone_coder *coder = coder_ptr;
 
-	while (*out_pos < out_size
-			&& (coder->sequence == SEQ_CODE || *in_pos < in_size))
+	// NOTE: The loop must not depend on the amount of free output space:
+	// the header fields don't need any, and the LZMA decoder has to be
+	// called also when the output buffer is full so that it can detect
+	// the end of the stream (end marker or the known uncompressed size).
+	while (coder->sequence == SEQ_CODE || *in_pos < in_size)
 	switch (coder->sequence) {
 	case SEQ_PROPERTIES:
 		if (lzma_lzma_lclppb_decode(&coder->options, in[*in_pos]))
